@@ -80,6 +80,18 @@ AppendAny(id, ep, sz, f) ==
   /\ acked' = acked \cup {id}
   /\ UNCHANGED <<up, inflight, removed>> /\ lastPurge' = NoPurge
 
+\* ---- Append(value) refused because the value does not encode: maybeRotate has already run (a fresh, empty active file f if a
+\*      rotation was due), nothing is written or acknowledged.  Whatever the encoder emitted before failing must not reach the log:
+\*      the durability clause is judged on the All() that follows the *next* acknowledged append.
+AppendRejected(f) ==
+  /\ up
+  /\ IF NeedRotate
+     THEN /\ f \notin Files
+          /\ disk' = disk @@ (f :> [ents |-> <<>>, torn |-> 0])
+          /\ logFiles' = FlushLogFiles /\ active' = f /\ activeMax' = 0
+     ELSE f = active /\ UNCHANGED <<disk, logFiles, active, activeMax>>
+  /\ UNCHANGED <<up, epoch, size, acked, inflight, removed>> /\ lastPurge' = NoPurge
+
 \* ---- Rotate() and Close() both call flush()
 Flush ==
   /\ up
